@@ -45,6 +45,27 @@ def ref_point_bytes(d, Q, enc):
     return bytes((6 + (Q[1] & 1),)) + xb + yb
 
 
+PEM_LAYOUTS = ("lead-blank", "trail-blank", "trail-2blank", "crlf", "w76", "oneline", "nofinal", "w4")
+
+
+def pem_layout(label, der, layout):
+    """the same PEM object as other writers lay it out: blank lines around the armour, CRLF, other line widths"""
+    import base64
+    b64 = base64.b64encode(der)
+    L = label.encode()
+    width = {"w76": 76, "oneline": 10 ** 6, "w4": 4}.get(layout, 64)
+    nl = b"\r\n" if layout == "crlf" else b"\n"
+    lines = [b"-----BEGIN " + L + b"-----"] + [b64[i:i + width] for i in range(0, len(b64), width)] + [b"-----END " + L + b"-----"]
+    txt = nl.join(lines) + (b"" if layout == "nofinal" else nl)
+    if layout == "lead-blank":
+        txt = b"\n" + txt
+    if layout == "trail-blank":
+        txt += b"\n"
+    if layout == "trail-2blank":
+        txt += b"\n\n"
+    return txt
+
+
 def check_key(ctx, case):
     d = gen.dom(case["curve"])
     dd = case["d"]
@@ -145,6 +166,10 @@ def check_key(ctx, case):
                     fail("vk-to_pem-body-wrong/%s" % enc)
                 same_vk(VerifyingKey.from_pem(pem, hashfunc=hashlib.sha256), "pem-" + enc)
                 same_vk(VerifyingKey.from_pem(pem.decode(), hashfunc=hashlib.sha256), "pemstr-" + enc)
+                for j in range(2):
+                    lay = PEM_LAYOUTS[(dd + 3 * j + len(enc)) % len(PEM_LAYOUTS)]
+                    txt = pem_layout("PUBLIC KEY", want, lay)
+                    same_vk(VerifyingKey.from_pem(txt if j else txt.decode(), hashfunc=hashlib.sha256), "pem-layout-%s-%s" % (lay, enc))
             except rder.DERError as e:
                 fail("vk-to_der-not-strict-der/%s" % enc, str(e))
             except Exception as e:
@@ -211,6 +236,9 @@ def check_key(ctx, case):
                 same_sk(SigningKey.from_der(der, hashfunc=hashlib.sha256), "ref-" + vn)
                 label = "EC PRIVATE KEY" if vn.startswith("ssleay") else "PRIVATE KEY"
                 same_sk(SigningKey.from_pem(rder.pem(label, der), hashfunc=hashlib.sha256), "refpem-" + vn)
+                lay = PEM_LAYOUTS[(dd + len(vn)) % len(PEM_LAYOUTS)]
+                txt = pem_layout(label, der, lay)
+                same_sk(SigningKey.from_pem(txt if dd % 2 else txt.decode(), hashfunc=hashlib.sha256), "refpem-layout-%s-%s" % (lay, vn))
             except Exception as e:
                 fail("sk-ref-encoded/exception/%s/%s" % (vn, exc_sig(e)), repr(e))
     ctx.event("key:" + cls)
